@@ -164,3 +164,58 @@ def rerun_in_fresh_interpreter(module, task, hashseed='12345', timeout=600):
                 raise RuntimeError('fresh-interpreter rerun harness error: ' + d['h'][0].get('trace', '')[-2000:])
             return d['d']
     raise RuntimeError(f'fresh-interpreter rerun produced no result (rc={p.returncode}): {p.stderr[-2000:]}')
+
+
+def isolated(fn, *args, hang_s=300):
+    """Run ``fn(*args)`` in a forked child and return its (picklable) result.
+
+    Every simulated run starts from the same pristine process state: the library freshly imported
+    and never used.  Whatever a run leaves behind in module-level state of the tree under test
+    (which the harness cannot know about or reset), in caches or in the allocator dies with the
+    child, so a run never depends on the runs that preceded it in the worker - and a replay in a
+    fresh interpreter starts from the same state.
+    """
+
+    import pickle
+    import signal
+    r, w = os.pipe()
+    sys.stdout.flush()
+    sys.stderr.flush()
+    pid = os.fork()
+    if pid == 0:
+        code = 0
+        try:
+            os.close(r)
+            # NB: faulthandler's watchdog must not be touched here: its thread does not exist in the child and
+            # cancelling it would wait for it forever.  The child's own watchdog is SIGALRM (default action: die).
+            from sim import env as _env
+            _env.set_outer_deadline(hang_s)
+            try:
+                out = ('ok', fn(*args))
+            except BaseException:  # noqa: BLE001
+                out = ('error', traceback.format_exc())
+            data = pickle.dumps(out, protocol=pickle.HIGHEST_PROTOCOL)
+            with os.fdopen(w, 'wb') as f:
+                f.write(data)
+        except BaseException:  # noqa: BLE001
+            code = 3
+        finally:
+            os._exit(code)
+    os.close(w)
+    chunks = []
+    with os.fdopen(r, 'rb') as f:
+        while True:
+            b = f.read(1 << 16)
+            if not b:
+                break
+            chunks.append(b)
+    _, status = os.waitpid(pid, 0)
+    data = b''.join(chunks)
+    if not data:
+        sig = os.WTERMSIG(status) if os.WIFSIGNALED(status) else None
+        raise RuntimeError(f'isolated run died without a result (status={status}, signal={sig}); '
+                           'a hang inside the run is reported by the child\'s faulthandler on stderr')
+    kind, val = pickle.loads(data)
+    if kind == 'error':
+        raise RuntimeError('exception inside isolated run:\n' + val)
+    return val
